@@ -158,14 +158,14 @@ def checkC10 (toks : List String) (res : String) : Option Verdict :=
   | ["chars", tys, a] => do
     let ty ← parseTy tys; let (f, _) ← wdFmt ty
     let pa ← parseHex a
-    -- `cnl::to_chars` multiplies (`value - quotient * 10`): same indeterminacy on Karatsuba odd-split widths
-    let indeterminate := karaDefect f.n
-    let m := if indeterminate then res else match toChars f (ofNat f.w f.n pa) with
+    -- `cnl::to_chars` multiplies (`value - quotient * 10`) but keeps only the low 32 bits of the difference: on
+    -- Karatsuba odd-split widths the low 24 limbs of a product are still exact and independent of the uninitialised
+    -- arrays, so the text is compared with the (zero-filled) transcription like everywhere else
+    let m := match toChars f (ofNat f.w f.n pa) with
       | some s => s
       | none => "TIMEOUT"
     let want := WideSpec.decimal (patToInt f.N f.signed pa)
-    some { model := m, spec := some (want == res), cls := if indeterminate then "C10.karatsuba_odd_split" else "",
-           branch := if indeterminate then "chars/karatsuba-odd-split(indeterminate,echoed)" else "chars" }
+    some { model := m, spec := some (want == res), branch := if karaDefect f.n then "chars/karatsuba-odd-split" else "chars" }
   | _ => none
 
 end Cnl.Drv
